@@ -725,13 +725,15 @@ while true:
 end
 """
 CLI_SETS = [[], ["--cond2arithm"], ["--transform_categoricals"], ["--cond2arithm", "--transform_categoricals"],
-            ["--numeric_roots"], ["--numeric_croots", "--numeric_eps", "0.001"], ["--type_fp_iterations", "7", "--exact_func_moments"]]
+            ["--numeric_roots"], ["--numeric_croots", "--numeric_eps", "0.001"], ["--type_fp_iterations", "7", "--exact_func_moments"],
+            # an accuracy request SHARPER than the default 1e-10 must reach the solver
+            ["--numeric_roots", "--numeric_eps", "1e-25"]]
 
 
 def known_and_cli_tasks(ctx, progs):
     tasks = [{"kind": "analyze", "text": FUNC_TEXT, "goals": ["y"], "nvals": 4, "all_monomials": False,
               "opts": {"cond2arithm": c, "exact_func_moments": False}, "timeout": 90} for c in (False, True)]
-    cli_progs = [pr for pr in progs if "conditioned-draw" not in pr[2]][:ctx.pick(3, 8)]
+    cli_progs = [pr for pr in progs if "conditioned-draw" not in pr[2]][:ctx.pick(4, 8)]
     cmeta = []
     for p, goals, tag, r0 in cli_progs:
         for fl in CLI_SETS:
@@ -772,7 +774,7 @@ def process_known_and_cli(ctx, cmeta, res):
             continue
         want = {"transform_categoricals": "--transform_categoricals" in fl, "cond2arithm": "--cond2arithm" in fl,
                 "numeric_roots": "--numeric_roots" in fl, "numeric_croots": "--numeric_croots" in fl,
-                "numeric_eps": 0.001 if "--numeric_eps" in fl else 1e-10, "type_fp_iterations": 7 if "--type_fp_iterations" in fl else 100,
+                "numeric_eps": float(fl[fl.index("--numeric_eps") + 1]) if "--numeric_eps" in fl else 1e-10, "type_fp_iterations": 7 if "--type_fp_iterations" in fl else 100,
                 "exact_func_moments": "--exact_func_moments" in fl, "disable_type_inference": False, "trivial_guard": False}
         got = r.get("settings")
         ctx.coverage["obligations"] += 1
@@ -802,8 +804,13 @@ def process_known_and_cli(ctx, cmeta, res):
                 if pr["exact"] or not numeric:
                     if sp.simplify(val - sp.Rational(ref[n].numerator, ref[n].denominator)) != 0:
                         bad = (gi, n, str(val), str(ref[n]), pr["exact"])
-                elif abs(complex(sp.N(val)) - complex(ref[n])) > 1e-2 * (n + 1) ** 2 * max(1, abs(float(ref[n]))):
+                elif abs(complex(sp.N(val, 60)) - complex(ref[n])) > 1e-2 * (n + 1) ** 2 * max(1, abs(float(ref[n]))):
                     bad = (gi, n, str(val), str(ref[n]), pr["exact"])
+                elif want["numeric_eps"] < 1e-10:
+                    # requested accuracy sharper than the default: the error must be far below what the default would give
+                    err = abs(sp.N(val - sp.Rational(ref[n].numerator, ref[n].denominator), 60))
+                    if err > 1e-18 * (n + 1) ** 2 * max(1, abs(float(ref[n]))):
+                        bad = (gi, n, str(sp.N(val, 30)), str(ref[n]), pr["exact"])
                 if bad:
                     break
             if bad:
